@@ -221,7 +221,7 @@ Section C.
     - intros l w Hl. destruct l as [|[lab b] r]; [apply retonly_done|]. inversion Hl; subst. cbn [snd] in *.
       rewrite exec_from_S. pose proof (IH2 b w H1) as Hb.
       destruct (ex n b w) as [[g w'|sv w'|w'|w' pv|]|]; try (intros sv0 w0 H; discriminate).
-      * destruct g; try apply retonly_done. apply IH3; assumption.
+      * destruct g; try apply retonly_done. destruct r; [intros sv0 w0 H0; discriminate|]. apply IH3; assumption.
       * exact Hb.
     - intros a l w Ha Hl. destruct l as [|[lab b] r].
       + rewrite exec_pick_S. destruct (default_from a) eqn:E; [apply IH3; apply (default_from_ok Ha E)|apply retonly_done].
